@@ -257,6 +257,24 @@ PROPS['C04'] = dict(
          'broker Maximum Packet Size) is not shown unreachable; in it a first QoS 2 arrival is recorded but neither acknowledged nor '
          'delivered (see DESIGN.md). Trusted: Coq kernel, model, extraction, harness, Python reference. No axioms.')
 
+PROPS['C12'] = dict(
+    sess=[('py_c12', 300, 5000), ('sweep_c12', 400, 8000), ('sess_c12', 200, 4000)],
+    events='wrf', state=['cap', 'used', 'ret', 'ctl', 'rel', 'rb', 'pl', 'np', 'pt', 'resumed', 'sp', 'conn', 'live', 'cp', 'cid'],
+    monitors=[M.mon_c12, M.mon_panic],
+    title='the session can always be reconnected, whatever happened before',
+    claim='Proved in Coq for every session value (so for every history): the preamble of connect() empties the packet reader, clears '
+          'both timers and the resumed flag and puts every queued control, release and retained entry back at byte 0; the CONNECT is '
+          'encoded into the free tail of the compacted arena and the encoder succeeds exactly when 5 + its length fits there, failing '
+          'with BufferTooSmall before any byte is written otherwise; a successful CONNACK without properties is accepted in every '
+          'state. REFUTED for a full arena: C12_refuted_full_arena exhibits a reachable world (one unacknowledged PUBLISH in a 48-byte '
+          'arena) in which connect() over a healthy transport to a conformant broker fails and leaves the arena as full as before '
+          '(known finding K12). Tied to the code by a fault sweep (fail / zero / drop at every I/O index of generated histories, '
+          'including rejected, garbled, illegal and missing CONNACKs) ending in a connect() to a conformant automatic broker, with a '
+          'monitor that demands success, a whole CONNECT first, nothing partial carried over and a usable session.',
+    note='Partial: that connect() runs through write, flush and the CONNACK read on a healthy transport is established by the '
+         'correspondence and the monitor, not by a theorem over the I/O loop. Trusted: Coq kernel and VM (the refutation is computed), '
+         'model, extraction, harness incl. its conformant-broker mode, Python CONNACK conformance test. No axioms.')
+
 TRUSTED_BASE = [
     'Coq 8.16.1 kernel and its bytecode VM (vm_compute); native_compute is not used',
     'axioms: none (every property theorem is reported "Closed under the global context" by Print Assumptions)',
